@@ -582,7 +582,9 @@ fn list_forms(t: &mut Tally) {
     lits::<syn::LitFloat>("LitFloat", "v(1.5)", &["1.5"], t);
     lits::<syn::LitStr>("LitStr", "v(\"a\", \"-1\")", &["\"a\"", "\"-1\""], t);
     lits::<syn::LitBool>("LitBool", "v(true, false,)", &["true", "false"], t);
-    let cases: Vec<(&str, Vec<&str>)> = vec![("v(a, b::c, ::d)", vec!["a", "b :: c", ":: d"]), ("v()", vec![]), ("v(a)", vec!["a"]), ("v(::a::b, r#type::c, crate::d, self)", vec![":: a :: b", "r#type :: c", "crate :: d", "self"])];
+    let cases: Vec<(&str, Vec<&str>)> = vec![("v(a, b::c, ::d)", vec!["a", "b :: c", ":: d"]), ("v()", vec![]), ("v(a)", vec!["a"]), ("v(::a::b, r#type::c, crate::d, self)", vec![":: a :: b", "r#type :: c", "crate :: d", "self"]),
+        // a list is a list: repeated entries and spellings that differ only in the leading `::` stay
+        ("v(a, b, a)", vec!["a", "b", "a"]), ("v(a::b, ::a::b, a::b)", vec!["a :: b", ":: a :: b", "a :: b"]), ("v(Debug, Clone, Debug,)", vec!["Debug", "Clone", "Debug"])];
     for (src, want) in cases {
         let m = meta_lone(src).unwrap();
         t.evaluations += 1;
